@@ -20,6 +20,11 @@ pub use crate::relayer::Relayer;
 pub use crate::status::{Status, StatusCode};
 pub use crate::synchronizer::Synchronizer;
 pub use crate::types::{ActiveChain, SyncShared};
+#[cfg(ckb_verif)]
+pub use crate::{
+    relayer::{ReconstructionResult, verif_compact_block_verify},
+    types::{InflightBlocks, InflightState},
+};
 use ckb_constant::sync::MAX_BLOCKS_IN_TRANSIT_PER_PEER;
 
 // Time recording window size, ibd period scheduler dynamically adjusts frequency
